@@ -25,7 +25,7 @@ from pathlib import Path
 from vlib import driver
 from vlib.framework import WORK
 
-from . import c17gen
+from . import c17gen, c17suite
 from .c08 import _val, close, lean_val
 
 PROPS = ["MxlVerif.Props.C17"]
@@ -228,7 +228,7 @@ def uses_all(rng, g, m, names):
 
 
 def gen_doc(rng, *, stratum: str):
-    """stratum: exact | float | keywords | mixed | srefkw | compkw | initname | digits | gennames | rewrite | gencollide | sparse | nearequal | idcollide"""
+    """stratum: exact | float | keywords | mixed | srefkw | compkw | initname | digits | gennames | rewrite | gencollide | sparse | nearequal | idcollide | boolnum"""
     floaty = stratum == "float"
     GM.SMOOTH = stratum == "digits"
     kw = stratum == "keywords"
@@ -494,7 +494,16 @@ def gen_doc(rng, *, stratum: str):
         params.append([a_, "2"])
         params.append([b_, "5"])
         rxns[0]["law"] = ["AST_PLUS", [rxns[0]["law"], ["AST_TIMES", [["ci", a_], ["AST_PLUS", [["ci", b_], ["cn", "1"]]]]]]]
-    finding = {"mixed": "F-C17-4", "srefkw": "F-C17-5", "compkw": "F-C17-6", "idcollide": "F-C17-10"}.get(stratum)
+    finding = {"mixed": "F-C17-4", "srefkw": "F-C17-5", "compkw": "F-C17-6", "idcollide": "F-C17-10",
+               "boolnum": "F-C17-11"}.get(stratum)
+    if stratum == "boolnum":
+        # L3v2 lets a truth value stand for 0 / 1 (suite case 01288: the kinetic law <true/>): as a factor or a summand
+        r = rng.choice(rxns)
+        cond = rng.choice([["csym", "true"], ["csym", "false"],
+                           ["AST_RELATIONAL_LT", [["ci", species[0]["id"]], ["cn", rng.choice(["1", "2", "3"])]]],
+                           ["AST_RELATIONAL_GEQ", [["ci", species[0]["id"]], ["ci", pids[0]]]]])
+        r["law"] = rng.choice([cond, ["AST_TIMES", [r["law"], cond]], ["AST_PLUS", [r["law"], cond]]]) \
+            if cond[0] == "csym" else rng.choice([["AST_TIMES", [r["law"], cond]], ["AST_PLUS", [r["law"], cond]]])
     if stratum == "srefkw" and sref_n == 0:
         finding = None
     all_ids = ([c for c, _ in comps] + [s["id"] for s in species] + [p for p, _ in params] + [f["id"] for f in fundefs]
@@ -853,8 +862,11 @@ def eval_imported(m, case, imp):
             out["missing"].append(p)
             continue
         out["init"][p] = _val(a0[n])
+    # a parameter nothing changes may come back as a state variable with derivative 0 (pysbml does that for
+    # constant="false"): it keeps its initial value in every state, and its derivative is checked to be 0
+    extra = {imp.get(p, p): p for p, _ in doc["params"] if imp.get(p, p) in names}
     for st in case["states"]:
-        vs = {}
+        vs = {n: float(ic[n]) for n in extra}
         for sid, a in st:
             n = imp.get(sid, sid)
             s = next(x for x in doc["species"] if x["id"] == sid)
@@ -862,6 +874,9 @@ def eval_imported(m, case, imp):
             vs[n] = a / comp[s["comp"]] if conc_repr[sid] else a
         args = m.get_args(variables=vs)
         rhs = m.get_right_hand_side(variables=vs)
+        for n, p in extra.items():
+            if float(rhs[n]) != 0.0 and f"{p}:derivative" not in out["missing"]:
+                out["missing"].append(f"{p}:derivative")
         vals = {}
         for w in case["watch"]:
             n = imp.get(w, w)
@@ -960,6 +975,10 @@ def real_worker(job):
             write_doc(case["doc"], path, case.get("raw"))
             if case.get("keep_mtime"):
                 os.utime(path, ns=(st.st_atime_ns, st.st_mtime_ns))
+        elif case.get("xml_path"):
+            # a document of the SBML test suite: the original text is what the importer reads
+            path.parent.mkdir(parents=True, exist_ok=True)
+            shutil.copyfile(case["xml_path"], path)
         else:
             write_doc(case["doc"], path, case.get("raw"))
         try:
@@ -1108,6 +1127,8 @@ def spec_numbers(case):
 
 def judge_doc(ctx, case, R, M, S=None, what="imported model differs from the document"):
     small = {k: case.get(k) for k in ("kind", "doc", "states", "watch", "finding", "stem", "raw", "prev_doc", "keep_mtime")}
+    if case.get("xml_path"):
+        small["xml_path"], small["suite"] = case["xml_path"], case.get("suite")
     S = S or spec_numbers(case)
     stats: dict = {}
     if M is not None:
@@ -1122,14 +1143,86 @@ def judge_doc(ctx, case, R, M, S=None, what="imported model differs from the doc
         # exact only for parameters that carry one of the long literals and are not overridden by an assignment
         assigned = {k for k, _ in case["doc"].get("inits", [])} | {k for k, _ in case["doc"].get("rules", [])}
         exact = set(case.get("raw") or {}) - assigned if case["kind"] == "digits" else ()
-        Rv = snap(R, S, stats, exact_init=exact, tight=case["kind"] not in ("float", "digits", "mixed"))
+        Rv = snap(R, S, stats, exact_init=exact, tight=case["kind"] not in ("float", "digits", "mixed", "suite"))
     for k, v in stats.items():
         ctx.hist[f"numbers {k}"] = ctx.hist.get(f"numbers {k}", 0) + v
     finding = case["finding"]
     if finding is None and Rv == {"err": "import:AttributeError"} and _uses(case["doc"], "AST_LOGICAL_XOR") \
             and _uses(case["doc"], "AST_FUNCTION_PIECEWISE"):
         finding = "F-C17-8"  # sympy: 'Xor' object has no attribute '_eval_as_set' (piecewise terms under an xor condition)
+    if finding is None and Rv == {"err": "import:TypeError"} and bool_as_number(case["doc"]):
+        finding = "F-C17-11"  # sympy: BooleanAtom not allowed in this context (suite case 01288)
     return ctx.judge(small, Rv, S, None, finding=finding, what=what)
+
+
+def doc_constructs(doc) -> list[str]:
+    """SBML constructs a document uses (what the generator / the suite sample reaches; printed into the evidence)"""
+    c = set()
+    if len(doc["comps"]) > 1:
+        c.add("several compartments")
+    if any(Fraction(v) != 1 for _, v in doc["comps"]):
+        c.add("compartment size != 1")
+    for sp in doc["species"]:
+        c.add("species " + ("amount" if sp["isAmount"] else "concentration") + (" hasOnlySubstanceUnits" if sp["hosu"] else ""))
+        if sp["init"] is None:
+            c.add("species without value attribute")
+    sids = {sp["id"] for sp in doc["species"]}
+    pids = {p for p, _ in doc["params"]}
+    if doc["fundefs"]:
+        c.add("function definition")
+    if any(k in sids for k, _ in doc["inits"]):
+        c.add("initial assignment on species")
+    if any(k in pids for k, _ in doc["inits"]):
+        c.add("initial assignment on parameter")
+    if any(k in pids for k, _ in doc["rules"]):
+        c.add("assignment rule on parameter")
+    if any(k not in pids for k, _ in doc["rules"]):
+        c.add("assignment rule on species reference")
+    for r in doc["rxns"]:
+        for x in r["reactants"] + r["products"]:
+            if x[1] is not None and Fraction(x[1]).denominator != 1:
+                c.add("fractional stoichiometry")
+        if not r["reactants"] or not r["products"]:
+            c.add("reaction with one side")
+        if {x[0] for x in r["reactants"]} & {x[0] for x in r["products"]}:
+            c.add("species on both sides")
+    text = json.dumps([x for _, x in doc["inits"]] + [x for _, x in doc["rules"]] + [r["law"] for r in doc["rxns"]]
+                      + [f["body"] for f in doc["fundefs"]])
+    for node in sorted(c17suite.MATH_TYPES):
+        if f'"{node}"' in text:
+            c.add("math " + node[4:].lower())
+    comp_ids = {k for k, _ in doc["comps"]}
+    if any(_math_names(r["law"]) & comp_ids for r in doc["rxns"]):
+        c.add("compartment in kinetic law")
+    return sorted(c)
+
+
+def _is_bool(m) -> bool:
+    return (m[0] == "csym" and m[1] in ("true", "false")) or m[0].startswith("AST_RELATIONAL_") or m[0].startswith("AST_LOGICAL_")
+
+
+def _bool_in_numeric(m, numeric: bool) -> bool:
+    """a truth-valued node where a number is expected"""
+    if m[0] in ("ci", "cn"):
+        return False
+    if _is_bool(m):
+        if numeric:
+            return True
+        return m[0] != "csym" and any(_bool_in_numeric(k, m[0].startswith("AST_RELATIONAL_")) for k in m[1])
+    if m[0] == "csym":
+        return False
+    if m[0] == "call":
+        return any(_bool_in_numeric(k, True) for k in m[2])
+    if m[0] == "AST_FUNCTION_PIECEWISE":
+        kids = m[1]
+        return any(_bool_in_numeric(k, not (i % 2 == 1 and i < len(kids) - (len(kids) % 2))) for i, k in enumerate(kids))
+    return any(_bool_in_numeric(k, True) for k in m[1])
+
+
+def bool_as_number(doc) -> bool:
+    maths = [x for _, x in doc["inits"]] + [x for _, x in doc["rules"]] + [r["law"] for r in doc["rxns"]] + [
+        f["body"] for f in doc["fundefs"]]
+    return any(_bool_in_numeric(x, True) for x in maths)
 
 
 def _uses(doc, node_type: str) -> bool:
@@ -1245,6 +1338,41 @@ def shrink(ctx, viol, budget: int = 40):
 # ---------------------------------------------------------------------------------------------- run
 
 
+def suite_cases(ctx):
+    """stratum `suite`: files of the SBML semantic test suite shipped with the repo that lie inside the document subset
+    (quick: a seeded sample, thorough: all of them); the reasons why the other files are outside go into the evidence"""
+    inside, why = c17suite.classify()
+    for k, v in why.items():
+        ctx.hist[f"suite outside: {k}"] = v
+    ctx.hist["suite inside"] = len(inside)
+    if not inside:
+        return []
+    pick = inside if ctx.n(0, 1) else ctx.rng.sample(inside, min(40, len(inside)))
+    out = []
+    for n, f, doc in pick:
+        comp_ids = {c for c, _ in doc["comps"]}
+        amount_typed = any(sp["isAmount"] and not sp["hosu"] for sp in doc["species"])
+        law_names = set()
+        for r in doc["rxns"]:
+            law_names |= _math_names(r["law"])
+        out.append({"kind": "suite", "doc": doc, "states": c17suite.states_for(doc, ctx.rng), "watch": [r[0] for r in doc["rules"]],
+                    # third party, known: the compartment symbol in the law of an amount-typed species (F-C17-4)
+                    "finding": "F-C17-4" if amount_typed and (law_names & comp_ids) else None,
+                    "prev_doc": None, "keep_mtime": False, "raw": None, "stem": f"case{n:05d}", "xml_path": str(f), "suite": n})
+    return out
+
+
+def _math_names(m) -> set:
+    if m[0] == "ci":
+        return {m[1]}
+    if m[0] in ("cn", "csym"):
+        return set()
+    out = set()
+    for k in (m[2] if m[0] == "call" else m[1]):
+        out |= _math_names(k)
+    return out
+
+
 def lean_docs(ctx, cases):
     if not ctx.driver_ok:
         return [None] * len(cases)
@@ -1333,7 +1461,7 @@ def setup(ctx):
 def strata(ctx):
     n = ctx.n(1, 40)
     return [("exact", 110 * n), ("float", 60 * n), ("keywords", 40 * n), ("initname", 15 * n), ("mixed", 15 * n),
-            ("srefkw", 12 * n), ("compkw", 6 * n), ("digits", 12 * n), ("gennames", 24 * n), ("rewrite", 20 * n), ("gencollide", 24 * n), ("sparse", 12 * n), ("nearequal", 24 * n), ("idcollide", 6 * n)]
+            ("srefkw", 12 * n), ("compkw", 6 * n), ("digits", 12 * n), ("gennames", 24 * n), ("rewrite", 20 * n), ("gencollide", 24 * n), ("sparse", 12 * n), ("nearequal", 24 * n), ("idcollide", 6 * n), ("boolnum", 6 * n)]
 
 
 PAIR_STEMS = [("Model-1", "model 1"), ("A", "a"), ("m.v2", "mv2"), ("x", "x"), ("my  model", "my-model")]
@@ -1343,6 +1471,7 @@ def run(ctx):
     setup(ctx)
     shutil.rmtree(SCRATCH, ignore_errors=True)
     cases = [gen_doc(ctx.rng, stratum=s) for s, c in strata(ctx) for _ in range(c)]
+    cases += suite_cases(ctx)
     for i in range(0, len(cases), 256):
         chunk = cases[i:i + 256]
         Ms = lean_docs(ctx, chunk)
@@ -1350,6 +1479,9 @@ def run(ctx):
         Rs = pool().map(real_worker, list(zip(chunk, imps)), chunksize=4)
         for case, R, M in zip(chunk, Rs, Ms):
             ctx.count({"doc": case["doc"], "states": case["states"]}, case["kind"], "err" not in R)
+            for k in doc_constructs(case["doc"]):
+                key = f"construct {'suite' if case['kind'] == 'suite' else 'generated'}: {k}"
+                ctx.hist[key] = ctx.hist.get(key, 0) + 1
             judge_doc(ctx, case, R, M)
         check_glue(ctx, chunk, Rs)
         if len(ctx.violations) > 20:
